@@ -124,6 +124,12 @@ def bounded(rep, tier, seed):
                           bind_b={"x": True, "y": False}, stride=3 if tier == "thorough" else 41, max_points=3000 if tier == "thorough" else 250,
                           include_setup=True))
 
+    # ... and from the state in which no parser exists yet (first use in a process, or after the documented CEL_PARSER = None reset):
+    # both threads then build their parsers concurrently; every line event of the first part of A's setup is a preemption point
+    for ra, rb in (("InterpretedRunner", "CompiledRunner"), ("CompiledRunner", "InterpretedRunner"), ("CompiledRunner", "CompiledRunner")):
+        specs.append(dict(runner_a=ra, prog_a="x || y", bind_a={"x": True, "y": False}, runner_b=rb, prog_b="y || y", bind_b={"x": True, "y": False},
+                          stride=1, max_points=70 if tier == "thorough" else 30, include_setup=True, fresh_parser=True))
+
     # two preemptions (partially overlapping evaluations); one side is nested to CEL's minimum depth
     deep = "(" * 32 + "x" + ")" * 32
     for ra, rb in itertools.product(("InterpretedRunner", "CompiledRunner"), repeat=2):
